@@ -1,0 +1,56 @@
+//go:build verif
+
+// Contracts for package crc, read by /verif's govc (see /verif/DESIGN.md). Besides //@ comments this file holds
+// one ghost function (compiled only under the verif tag, never called by the library): the reference CRC-24 routine.
+package crc
+
+// crc24Ref is the CRC-24 of Cassandra's v5 framing (org.apache.cassandra.net.Crc.crc24), transcribed literally:
+// initial value 0x875060, polynomial 0x1974F0B, bytes taken from the least significant end, each masked to 8 bits.
+func crc24Ref(bytes uint64, length int) uint32 {
+	var crc uint32 = 0x875060
+	for length > 0 {
+		length--
+		crc ^= uint32(bytes&0xff) << 16
+		bytes >>= 8
+		for i := 0; i < 8; i++ {
+			crc <<= 1
+			if (crc & 0x1000000) != 0 {
+				crc ^= 0x1974F0B
+			}
+		}
+	}
+	return crc
+}
+
+//@ func crc24Ref
+//@   inline
+//@   requires hdrlen: length >= 0 && length <= 5
+//@   unroll #0 5
+//@   unroll #1 8
+
+// The library's routine omits the "& 0xff"; the stray bits it xors in above bit 23 are shifted out before they can
+// reach bit 24, so the two agree - for every 64-bit input and both header lengths.
+
+// ChecksumKoopman is deterministic and effect-free; callers and contracts see it as a function crcK(data, len).
+//@ func ChecksumKoopman
+//@   prop C06, C07
+//@   pure
+//@   requires hdrlen: len == 3 || len == 5
+//@   unroll #0 5
+//@   unroll #1 8
+//@   ensures bits24: result <= 0xFFFFFF
+
+// The equivalence is stated as two lemmas, one per header length, so that both routines unroll into straight-line
+// bit-vector terms over the 64 input bits.
+
+func lemmaCrc24Len3(data uint64) bool { return ChecksumKoopman(data, 3) == crc24Ref(data, 3) }
+func lemmaCrc24Len5(data uint64) bool { return ChecksumKoopman(data, 5) == crc24Ref(data, 5) }
+
+//@ func lemmaCrc24Len3
+//@   prop C06, C07
+//@   expand crc.ChecksumKoopman
+//@   ensures equal: result
+//@ func lemmaCrc24Len5
+//@   prop C06, C07
+//@   expand crc.ChecksumKoopman
+//@   ensures equal: result
